@@ -310,3 +310,6 @@ TRUSTED = TRUSTED + [
 TRUSTED = TRUSTED + [
     "tzlocal translator tie: `time.localtime(u).tm_isdst` and `time.timezone` are named primitives (Model/ObjPy.lean: localtimeIsdst = the zone model's yearly-rule predicate localNaiveIsdst at u + stdoffset with the fraction floored, timeTimezone = -stdoffset); `getattr(dt, 'fold', None)` is the fold (Python >= 3.6); exercised against tz.tzlocal() under several TZ settings on every run",
 ]
+TRUSTED = TRUSTED + [
+    "the `@_validate_fromutc_inputs` decorator is re-translated too (its inner function, the wrapped method as a parameter; `isinstance(dt, datetime)` statically true) and validated through the public fromutc of range zones on attached / foreign / naive datetimes (op tzgen.range.fromutc_pub)",
+]
